@@ -32,7 +32,11 @@ MOTIONS = [(np.array(t, dtype=float), R)
 REF_SEQS = [(1, 1, 1, 1), (1, 0, 2, 4), (0, 0, 2, 2), (2, 3, 0, 1),
             (4, 4, 4, 4), (3, 1, 0, 0), (6, 2, 5, 1), (0, 2, 0, 2)]
 DELTAS = [("f", 1), ("f", 2), ("m", 1.0), ("m", 2.5), ("r", 1.0), ("r", 2.0),
-          ("d", 80.0), ("d", 170.0)]
+          ("d", 80.0), ("d", 170.0),
+          # quarter turns exactly: the reference that keeps turning the same
+          # way passes 180 and 360 degrees of absolute heading (where
+          # quaternion signs flip) while every step is a 90-degree pair
+          ("d", 90.0), ("r", math.pi / 2)]
 
 
 def chain(seq, start=None):
@@ -153,6 +157,11 @@ def shard_core(arg):
             mode = ("se3", "quat")[(ri + len(seq)) % 2]
             for unit, delta in DELTAS:
                 for allp in (False, True):
+                    if not allp and (unit, delta) in DELTAS[-2:]:
+                        # consecutive pairs accumulate the angle until it
+                        # reaches delta: a delta that is hit exactly is a
+                        # knife-edge; all-pairs mode has a tolerance band
+                        continue
                     for from_ref in (False, True):
                         for rel in RELS:
                             msgs, outcome = judge(Pr, Pe, rel, delta, unit,
@@ -269,6 +278,15 @@ def predict(pt):
         hi = select(src, delta * (1 + 1e-9), unit_d, 0.1, pt["all_pairs"])
         if lo != pairs or hi != pairs:
             raise pl.Ambiguous("pair selection on a knife-edge")
+    # the selection itself is judged by C10's predicate oracle on the model's
+    # poses (complete and sound within the tolerance band)
+    from mc.checks import c10
+    pm, exists = c10.judge_pairs(src, delta, unit_d, 0.1, pt["all_pairs"],
+                                 pairs or [])
+    if pairs is None and exists:
+        pm = pm + ["no pairs selected although one exists"]
+    if pm:
+        raise pl.AssociationViolation("pair selection: " + "; ".join(pm[:2]))
     if pairs is None:
         raise pl.Refusal("no-pairs")
     vals, ends = [], []
@@ -312,6 +330,8 @@ def run_point(pt):
         exp, refusal = None, r
     except pl.Ambiguous:
         return [], "ambiguous"
+    except pl.AssociationViolation as v:
+        return ["processing of the input files: %s" % v], "values"
     res = cli.run_cli("rpe", argv)
     if refusal is not None:
         if res.exc is not None and not cli.is_evo_refusal(res):
@@ -420,7 +440,7 @@ def lattice_points(ctx):
             pts.append(dict(base, **p))
     # geometry variants of the estimate: mirrored copy, both far from the
     # origin, the reference file given twice
-    g = [("geometry", ["m", "f", "same"]), ("relation", DIMS[0][1]),
+    g = [("geometry", ["m", "f", "same", "b"]), ("relation", DIMS[0][1]),
          ("delta", [("f", 1), ("m", 1.5), ("d", 37.0)]),
          ("all_pairs", [False, True]), ("align", ["none", "as", "origin"]),
          ("project", [None, "xy"])]
@@ -453,7 +473,7 @@ def run(ctx):
     acc.rule = (
         "estimate = every sequence of <= %d steps over 8 motions (translation "
         "{0,1,2 along x, 1 along y} x rotation {id, 90 deg about z}), "
-        "reference = %s fixed sequences with zero-length steps, x 8 (delta "
+        "reference = %s fixed sequences with zero-length steps, x 8 + 2 (delta "
         "unit, delta) x all_pairs x pairs_from_reference x 7 relations x "
         "alternating storage mode: one value per selected pair in order, "
         "pair end indices, ratio skips zero reference distances "
